@@ -3,6 +3,7 @@
 # checks of the given properties, undo the change. Prints one line per check.
 id=$1; shift
 cd /repo && git diff --quiet || { echo "/repo is dirty"; exit 2; }
+rm -rf /tmp/evidence_keep && cp -r /verif/evidence /tmp/evidence_keep
 git -C /repo apply /verif/seeded/$id/patch.diff || { echo "patch does not apply"; exit 2; }
 for p in "$@"; do
   out=$(cd /verif && timeout 1200 ./check $p --quick 2>&1 | grep -E "VIOLATION|KNOWN|Traceback|Error" | head -3 | tr '\n' ' ')
@@ -10,3 +11,4 @@ for p in "$@"; do
   echo "$p => ${out:-PASS(no alarm)}" >> /verif/seeded/$id/detection.txt
 done
 git -C /repo checkout -- .
+rm -rf /verif/evidence && mv /tmp/evidence_keep /verif/evidence
